@@ -901,7 +901,7 @@ func (r *vcRun) scenario(w *bufio.Writer) {
 			}
 		}
 		// drain: run every parked job to completion (bounded)
-		for i := 0; i < 400; i++ {
+		for i := 0; i < 80; i++ {
 			parked := vcCtl.snapshot()
 			var act []interface{}
 			for _, k := range vcKinds {
